@@ -150,18 +150,9 @@ Definition inert_by_construction : list str := [s "macros.html:var.initial#1"].
 (* known findings: declaration text printed unescaped (keys of Gen/EscapeSites.v) *)
 Definition known_unescaped : list str :=
   [s "macros.html:var.full_type | relurl(page_url)#1";
-   s "macros.html:var.attribs | join("", "")#1";
-   s "macros.html:var.dimension#1";
    s "macros.html:proc.retvar.full_declaration | relurl(page_url)#1";
    s "macros.html:proc.retvar.full_declaration | relurl(page_url)#2";
-   s "macros.html:proc.bindC#1";
-   s "macros.html:proc.bindC#2";
    s "macros.html:variable.full_type | relurl(page_url)#1";
-   s "nongenint_page.html:var.kind#1";
-   s "nongenint_page.html:var.strlen#1";
-   s "nongenint_page.html:var.proto[1]#1";
-   s "nongenint_page.html:attrib#1";
-   s "nongenint_page.html:var.dimension#1";
    s "proc_page.html:procedure.retvar.full_declaration | relurl(page_url)#1"].
 
 Definition site_ok (st : site) : bool :=
